@@ -29,7 +29,10 @@ CONSTANTS Values,      \* string-top values (non-empty tags); 0 is the empty tag
           FinCaps,     \* capacities FinishStringTop may be called with (negative -> 0)
           MaxOps,      \* bound on the number of events (model checking only)
           MaxLog2,     \* bound on sampleFactorLog2 (model checking only)
-          Bug          \* "none"; "drop" / "light" / "cap" break the mechanism on purpose (non-vacuity runs)
+          Bug,         \* "none"; "drop" / "light" / "cap" break the mechanism on purpose (non-vacuity runs)
+          WordBits     \* 0: the sample factor 2^sampleFactorLog2 is computed without overflow (the code as
+                       \* repaired: math.Ldexp); n > 0: `1 << sampleFactorLog2` in an n-bit signed int as the
+                       \* code did originally (n = 64 there; small n shows the same wrap-around in the model)
 
 VARIABLES cap,    \* capacity argument used for this row
           top,    \* s.Top:  value -> aggregate
@@ -46,6 +49,9 @@ View == <<cap, top, tail, sfl, pend, all, fin, nops>>
 
 NoTag == 0
 Pow2(n) == 2 ^ n
+(* sf := 1 << sampleFactorLog2.  In an n-bit int the shift gives 2^(n-1) negated for s = n-1 and 0 beyond. *)
+Sf(s) == IF WordBits = 0 \/ s < WordBits - 1 THEN Pow2(s)
+         ELSE IF s = WordBits - 1 THEN 0 - Pow2(s) ELSE 0
 Max2(a, b) == IF a > b THEN a ELSE b
 
 -------------------------------------------------------------------------------
@@ -92,7 +98,7 @@ Init == /\ cap \in Caps
 
 (* rng.Float64()*sf >= count  with rng.Float64() in [0,1): possible iff count < sf;
    the opposite outcome is possible iff count > 0 *)
-CanRouteTail(c, s) == s # 0 /\ c < Pow2(s)
+CanRouteTail(c, s) == s # 0 /\ c < Sf(s)
 CanRouteTop(c, s)  == s = 0 \/ c > 0
 
 (* MapStringTop + Add.  `route` is the RNG's decision for a value not in Top. *)
@@ -118,8 +124,8 @@ MapCore(v, e, route) ==
 
 (* resample: sampleFactorLog2++; an entry with Count() >= sf stays; otherwise rv = rng.Intn(sf)
    and it stays iff Count() > rv.  rv ranges over 0..sf-1, hence: *)
-MayFold(c, s)  == c <= Pow2(s) - 1     \* some rv folds it
-MustFold(c, s) == c <= 0               \* every rv folds it
+MayFold(c, s)  == c < Sf(s) /\ c <= Sf(s) - 1     \* not skipped by `Count() >= sf`, and some rv folds it
+MustFold(c, s) == c < Sf(s) /\ c <= 0             \* every rv folds it
 
 ResampleCore(F) ==
     /\ pend # <<>> /\ Cardinality(DOMAIN top) >= EffCap(cap)
@@ -194,6 +200,11 @@ CapacityRespected == Cardinality(DOMAIN top) <= EffCap(cap)
 TopNonEmpty == \A k \in DOMAIN top : top[k].cnt > 0        \* insertItem's "must be never" check
 WhaleIsTotal == fin.done => fin.whale = all.cnt
 TypeOK == /\ sfl \in 0..MaxLog2 /\ NoTag \notin DOMAIN top /\ Len(pend) <= 1
+(* MapStringTop returns: while a value waits for a slot, some later round can still fold something.
+   (With `1 << sampleFactorLog2` in a machine int the factor wraps to <= 0 and entries whose count
+   reached 2^(bits-2) can never be folded: the loop `for len(s.Top) >= capacity` spins forever.) *)
+NeverStuck == pend # <<>> /\ Cardinality(DOMAIN top) >= EffCap(cap) =>
+                 \E s \in sfl + 1 .. sfl + 40 : \E k \in DOMAIN top : MayFold(top[k].cnt, s)
 
 -------------------------------------------------------------------------------
 (* One whole MapStringTop+Add call as a relation between the states before and after it; the
